@@ -514,6 +514,40 @@ def apply_gap(out, rng):
     return out
 
 
+def charmm_hydrogens(out, rng, prob):
+    """Methylene hydrogens written the way CHARMM / GROMACS files name and order them: the pair (X2, X3) of the PDB v3
+    names becomes (X1, X2) with X1 listed first - GLY HA1 HA2, SER HB1 HB2, ILE HG11 HG12 ...  The rule is fixed here
+    (X3 is written as X1, X2 keeps its name) and does not consult the topology files of the tree under test."""
+    import re
+    items = out["items"]
+    n = 0
+    for seg, atoms in _blocks(items):
+        if rng.random() >= prob:
+            continue
+        names = {a["name"] for a in atoms}
+        for a3 in list(atoms):
+            mo = re.fullmatch(r"(H[A-Z][0-9]?)3", a3["name"])
+            if not mo:
+                continue
+            stem = mo.group(1)
+            if stem + "2" not in names or stem + "1" in names:
+                continue                      # methyl groups (1, 2, 3 all present) keep their names
+            a2 = next(a for a in atoms if a["name"] == stem + "2")
+            a3["canonical_name"] = a3["name"]
+            a3["name"] = stem + "1"
+            # X1 is listed directly in front of X2
+            i3 = next(i for i, it in enumerate(items) if it is a3)
+            items.pop(i3)
+            i2 = next(i for i, it in enumerate(items) if it is a2)
+            items.insert(i2, a3)
+            n += 1
+    if n:
+        pdbfmt.renumber(items)
+        out["text"] = pdbfmt.to_text(items)
+        out.setdefault("meta", {})["charmm_hydrogen_pairs"] = n
+    return out
+
+
 def apply_aliases(out, rng, prob):
     """Write some atoms under the alternate names the topology files document (ILE CD for CD1, HN for H, 1HB for HB3,
     O5* for O5', OW for O ...), as older / NMR / simulation-package files do."""
@@ -605,6 +639,8 @@ def materialise(spec):
         out["text"] = pdbfmt.to_text(out["items"])
     if p.get("icode_prob") and random.Random(spec["seed"] + 17).random() < p["icode_prob"]:
         apply_icodes(out, random.Random(spec["seed"] + 18))
+    if p.get("charmm_h_prob") and "items" in out:
+        charmm_hydrogens(out, random.Random(spec["seed"] + 28), p["charmm_h_prob"])
     if p.get("water_repeat_prob") and "items" in out and random.Random(spec["seed"] + 26).random() < p["water_repeat_prob"]:
         # solvent whose numbering repeats with a short period (wrapped / concatenated water shells): non-adjacent
         # waters share chain + number, so distinct atoms carry identical labels
